@@ -1274,7 +1274,7 @@ func ruleCallbackPairing(c *Ctx, rule string) {
 				}
 				n++
 				c.Anchor(rule, k.name)
-				if w.rootOf(fn) != home {
+				if !w.partOf(fn, home) {
 					c.Bad(rule, fname(fn), k.name, w.instrPos(in), k.name+" is emitted outside "+k.fn+", the function that performs the change it reports")
 					return
 				}
